@@ -1385,7 +1385,7 @@ def run_property(ctx, pid):
                 ex.account(execute(cfg, round_robin_policy(fail_submit_at=fail_at)), "fault-positions-submit")
                 ex.account(execute(cfg1, round_robin_policy(fail_at=fail_at[:1], fail_submit_at=fail_at[1:])), "fault-positions-submit")
     # ---- random / contention schedules
-    for i in range(ctx.n(260, 4000)):
+    for i in range(ctx.n(220, 4000)):
         cfg = dict(level="runner", linger=rng.choice([0, 0, 1]), calls=gen_calls(rng))
         pol = random_policy(rng, p_fail=pf) if i % 3 else contention_policy(rng, p_fail=pf)
         ex.account(execute(cfg, pol, faults=faults), "random" if i % 3 else "contention")
